@@ -17,6 +17,13 @@ states and applies the *current* scripts through the *current* runner; the end m
 run.  The baseline is the only thing that makes an edited released script visible; it is regenerated only
 when a new release has shipped (new versions are appended, old ones never change).
 
+The model connection used by this module (`TxnDB`/`TxnConn`) also carries the *transaction state* of a default `sqlite3`
+connection: a transaction is opened implicitly before INSERT/UPDATE/DELETE/REPLACE, `executescript` commits a pending one first,
+`commit()`/`COMMIT`/`with conn:` close it.  R5 decides, for every start state, that when `run_migrations` returns nothing it did to the
+schema or to `schema_migrations` is still held in an open transaction: the runner makes its own bookkeeping durable on every path
+(explicit commit, or the write inside BEGIN…COMMIT) and never leaves that to the implicit COMMIT of a later statement (which only
+happens when a script is pending) or to the caller (DBOSRuntime.run_migrations closes the connection without a commit).
+
 This module also hosts two helpers shared with C16 and C24 (the brief asks for shared helpers to
 live in a property module): `sqlmini` (tokenizer, parser, abstract schema, model database) and
 `XInterp` (the AST interpreter extended with objects, methods, `with`, `await`, `yield`).
@@ -2174,13 +2181,27 @@ EXPLANATION = (
     "recorded is never run again, so any edit of a released script that changes what it builds (statement moved between released scripts, "
     "added, dropped, column definition changed) leaves upgraded databases different from fresh ones unless a new script compensates; comment/"
     "layout edits, renamed files and compensating new scripts pass; scripts newer than the baseline only extend the fresh-run target. "
-    "Not decided: SQLite's own behaviour (WAL fallback, locking, transactional DDL, executescript's implicit COMMIT are modelled, not verified); "
+    "R5 (durability of the bookkeeping): the model connection carries the transaction state of a connection as `sqlite3.connect(path)` returns it "
+    "(the sqlite3 module opens a transaction before INSERT/UPDATE/DELETE/REPLACE given to execute/executemany when none is open; DDL, SELECT, PRAGMA "
+    "open none; executescript commits a pending transaction first and runs its text as written; commit()/COMMIT/`with conn:` end it). For every start "
+    "state of R1 and every released state of R4, when the interpreted `run_migrations` returns normally, the state a *new* connection would find after "
+    "this one is closed without a commit (open transaction rolled back) has the same schema and the same schema_migrations rows as the state the run "
+    "itself saw. Necessary: `run_migrations(conn)` is called with a plain connection that is closed right after without a commit "
+    "(llama_agents.dbos.runtime:DBOSRuntime.run_migrations; callers are listed in the evidence), so rows the runner leaves in an open transaction are "
+    "lost; the next start finds the schema_migrations table (bootstrap returns early) without the versions, re-runs script 1 and fails in script 2 — "
+    "'records every version once' and 'running them again changes nothing' are both broken. The fault only shows on paths where no later statement of "
+    "the runner commits as a side effect (legacy database already at the newest version: nothing pending), which is why every start state is run. "
+    "How the commit is written (conn.commit(), COMMIT, with-block, once at the end of run_migrations) does not matter. The failure path is R2's "
+    "(no transaction stays open after a failed script). "
+    "Not decided: SQLite's own behaviour (WAL fallback, locking, transactional DDL, the sqlite3 module's implicit BEGIN/COMMIT are modelled, not verified); "
+    "connections opened in another transaction mode (isolation_level=None / autocommit=True: R5 refuses to decide when a caller of the runner passes either); "
     "databases whose schema was produced by anything other than these scripts or the released scripts of the baseline (R4 is as good as the "
     "baseline: releases older than the confirmed tree are not in it); the Postgres migrations."
 )
 TRUSTED = [
     "CPython ast, re",
-    "SQLite semantics as modelled by sqlmini in this module (DDL applicability rules, transactional DDL, executescript commits a pending transaction first); "
+    "SQLite semantics as modelled by sqlmini in this module (DDL applicability rules, transactional DDL, executescript commits a pending transaction first, "
+    "implicit transaction before DML on a default-mode connection, an open transaction is rolled back when the connection is closed); "
     "the model is cross-checked against CPython's sqlite3 on the statement kinds used (checker validation, not a check of /repo)",
     "importlib.resources lists exactly the files of the migrations directory",
 ]
@@ -2251,6 +2272,120 @@ def _bind_migrations(repo: Any, w: World) -> tuple[str, MigrationSet]:
     return pkg, MigrationSet(entries)
 
 
+# ---------------------------------------------------------------------------- transaction state (R5)
+
+_DML_KINDS = ("insert", "update", "delete")
+
+
+class TxnDB(MiniDB):
+    """MiniDB + the transaction control of a connection as `sqlite3.connect(path)` returns it (legacy `isolation_level=""`):
+    before an INSERT/UPDATE/DELETE/REPLACE given to `execute`/`executemany` the sqlite3 module opens a transaction when none is
+    open (also for `executemany` over an empty sequence); DDL, SELECT and PRAGMA open none; `executescript` commits a pending
+    transaction first and then runs its statements as written (no implicit BEGIN).  `_snap` (inherited) is the last committed
+    state while a transaction is open, i.e. exactly what a new connection sees after this one is closed without a commit.
+    Cross-checked against CPython 3.12 sqlite3 (checker validation; nothing of /repo is run)."""
+
+    def __init__(self) -> None:
+        super().__init__()
+        self.implicit_opened = 0  # transactions the sqlite3 module opened for a DML statement outside BEGIN…COMMIT
+        self.opened_by: str | None = None  # what opened the transaction that is open now
+        self._in_script = False
+
+    def begin_implicit(self, what: str) -> None:
+        if self._snap is None and not self._in_script:
+            self._snap = self.snapshot()
+            self.implicit_opened += 1
+            self.opened_by = f"{what} (transaction opened implicitly by the sqlite3 module)"
+
+    def script(self, text: str) -> None:
+        self._in_script = True
+        try:
+            super().script(text)
+        finally:
+            self._in_script = False
+
+    def run(self, st: dict, params: list) -> list[tuple]:
+        k = st["kind"]
+        if k in _DML_KINDS:
+            self.begin_implicit(f"{k.upper()} on `{st.get('table')}`")
+        elif k == "txn" and st["what"] == "BEGIN" and self._snap is None:
+            self.opened_by = "BEGIN"
+        return super().run(st, params)
+
+    def settle(self) -> None:
+        """A caller that commits after the runner returned (SqliteWorkflowStore does): whatever is open becomes durable."""
+        self._snap = None
+
+    def uncommitted(self) -> str:
+        """What the open transaction holds, as a difference of the visible state to the last committed one."""
+        if self._snap is None:
+            return ""
+        schema0, data0, uv0 = self._snap
+        out = []
+        def key(r: dict) -> tuple:
+            return tuple(sorted((k, repr(v)) for k, v in r.items()))
+
+        def show(rs: list[dict]) -> list:
+            cols = [c for c in ("package", "version") if c in rs[0]] or sorted(rs[0])
+            return [tuple(r.get(c) for c in cols) for r in rs][:8]
+
+        for t in sorted(set(data0) | set(self.data)):
+            was, now = {key(r) for r in data0.get(t, [])}, {key(r) for r in self.data.get(t, [])}
+            new = [r for r in self.data.get(t, []) if key(r) not in was]
+            gone = [r for r in data0.get(t, []) if key(r) not in now]
+            if new or gone:
+                out.append(f"`{t}`: " + ", ".join(x for x in (f"+{len(new)} row(s) {show(new)}" if new else "", f"-{len(gone)} row(s) {show(gone)}" if gone else "") if x))
+        if schema0.canon() != self.schema.canon():
+            out.append("schema: " + self.schema.diff(schema0))
+        if uv0 != self.user_version:
+            out.append(f"user_version {uv0}->{self.user_version}")
+        return "; ".join(out) or "no visible change"
+
+    def reopened(self) -> "TxnDB":
+        """The database a new connection finds after this connection is closed as it is (open transaction rolled back)."""
+        db = TxnDB()
+        db.assume_rows, db.adversarial_order = self.assume_rows, self.adversarial_order
+        db.restore(self._snap if self._snap is not None else self.snapshot())
+        return db
+
+
+class TxnCursor(FakeCursor):
+    def executemany(self, sql: str, seq: Any) -> "FakeCursor":
+        if isinstance(sql, str) and isinstance(self.db, TxnDB):
+            st = parse_one(sql)
+            if st["kind"] in _DML_KINDS:
+                self.db.begin_implicit(f"{st['kind'].upper()} on `{st.get('table')}` (executemany)")
+        return super().executemany(sql, list(seq))
+
+
+class TxnConn(FakeConn):
+    """Connection over a TxnDB; `with conn:` commits on success and rolls back on an exception (it does not close)."""
+
+    _api = FakeConn._api | frozenset({"executemany"})
+
+    def cursor(self) -> FakeCursor:
+        return TxnCursor(self.db)
+
+    def execute(self, sql: str, params: Any = ()) -> FakeCursor:
+        return TxnCursor(self.db).execute(sql, params)
+
+    def executemany(self, sql: str, seq: Any) -> FakeCursor:
+        return TxnCursor(self.db).executemany(sql, seq)
+
+    def executescript(self, sql: str) -> FakeCursor:
+        return TxnCursor(self.db).executescript(sql)
+
+    def _enter(self, interp: Any, is_async: bool) -> Any:
+        return self
+
+    def _exit(self, interp: Any, exc: Any) -> bool:
+        if exc is None:
+            self.commit()
+        else:
+            self.rollback()
+        return False
+
+
 class Runner:
     """Interprets `run_migrations` of the analysed tree against model databases."""
 
@@ -2270,7 +2405,7 @@ class Runner:
 
     def run(self, db: MiniDB, files: list[tuple[str, str]], order: str = "reversed") -> None:
         w = self.world(files, order)
-        w.call(f"{MIG}:run_migrations", FakeConn(db))
+        w.call(f"{MIG}:run_migrations", TxnConn(db) if isinstance(db, TxnDB) else FakeConn(db))
 
     def versions(self, files: list[tuple[str, str]]) -> list[Any]:
         w = self.world(files, "sorted")
@@ -2286,8 +2421,8 @@ def _migration_rows(db: MiniDB, package: str = "server") -> list[Any]:
     return sorted(r["version"] for r in db.data.get("schema_migrations", []) if r.get("package") == package)
 
 
-def _fresh() -> MiniDB:
-    db = MiniDB()
+def _fresh() -> TxnDB:
+    db = TxnDB()
     db.assume_rows = True
     return db
 
@@ -2393,13 +2528,50 @@ def load_baseline(rel: str = BASELINE_REL) -> dict:
     return b
 
 
+def runner_callers(repo: Any) -> list[tuple[str, bool]]:
+    """Call sites of the SQLite `run_migrations` in the repository's sources (resolved through imports, aliases included):
+    (`module:function`, whether that function calls `.commit()` on the connection it handed over, after the call)."""
+    out = []
+    target = f"{MIG}:run_migrations"
+    for rel in sorted(repo.by_rel):
+        m = repo.by_rel[rel]
+        if not any(v.endswith("run_migrations") for v in m.imports.values()):
+            continue
+        for c in ast.walk(m.tree):
+            if not (isinstance(c, ast.Call) and isinstance(c.func, ast.Name) and c.args and repo.resolve_dotted(m, c.func.id) == target):
+                continue
+            fn = enclosing_function(c)
+            recv = ast.unparse(c.args[0])
+            commits = fn is not None and any(
+                isinstance(k, ast.Call) and isinstance(k.func, ast.Attribute) and k.func.attr == "commit" and ast.unparse(k.func.value) == recv
+                and (k.lineno, k.col_offset) > (c.lineno, c.col_offset) for k in ast.walk(fn))
+            out.append((f"{m.name}:{qualname_of(fn) if fn is not None else '<module>'}", bool(commits)))
+    return out
+
+
+def nondefault_connects(repo: Any) -> list[str]:
+    """`connect(...)` calls that choose a transaction mode (`isolation_level=` / `autocommit=`) in modules that call the SQLite runner:
+    R5's model is the default mode, so it must not decide for them."""
+    out = []
+    target = f"{MIG}:run_migrations"
+    for rel in sorted(repo.by_rel):
+        m = repo.by_rel[rel]
+        if not any(repo.resolve_dotted(m, k) == target for k, v in m.imports.items() if v.endswith("run_migrations")):
+            continue
+        for c in ast.walk(m.tree):
+            if isinstance(c, ast.Call) and last(call_name(c)) == "connect" and any(k.arg in ("isolation_level", "autocommit") for k in c.keywords):
+                out.append(f"{m.rel}:{c.lineno}")
+    return out
+
+
 _R4_WHY = ("; a database that the released scripts left at version {k} has recorded those versions and never runs them again, so what an edited "
            "released script now builds reaches fresh databases only: leave released scripts as they were and put the change into a new script")
 
 
 def analyse_set(repo: Any, ms: MigrationSet, label: str, baseline: dict | None = None) -> dict:
     """All R1/R2/R3-header (and, given the released baseline, R4) verdicts for one migration set: {'checked': [(rule, instance, text, ok, why)], ...}."""
-    res: dict = {"problems": [], "checked": [], "states": 0, "released_states": 0, "final": None}
+    res: dict = {"problems": [], "checked": [], "states": 0, "released_states": 0, "final": None, "durable_states": 0, "implicit_states": 0}
+    relying = [c for c, commits in runner_callers(repo) if not commits]
     rn = Runner(repo)
     sql = ms.sql
     n = len(sql)
@@ -2448,7 +2620,29 @@ def analyse_set(repo: Any, ms: MigrationSet, label: str, baseline: dict | None =
         res["checked"].append((rule, f"{inst}:rerun", f"{desc}: running the migrations again changes nothing", idem,
                                why2 or ("" if idem else f"second run executed {db.log[nlog:]} / changed the database state")))
 
+    def durable(db: TxnDB, inst: str, desc: str) -> None:
+        """R5: what this run did to the schema and to schema_migrations is committed when run_migrations returns."""
+        res["durable_states"] += 1
+        res["implicit_states"] += 1 if db.implicit_opened else 0
+        okd, why = True, ""
+        if db._snap is not None:
+            lost = db.reopened()
+            okd = lost.schema.canon() == db.schema.canon() and lost.data.get("schema_migrations", []) == db.data.get("schema_migrations", [])
+            if not okd:
+                held, by, found = db.uncommitted(), db.opened_by, _migration_rows(lost)
+                ok2, why2 = guarded("next start", lambda: rn.run(lost, ms.entries))
+                nxt = f"the next start fails ({why2})" if not ok2 else f"the next start executes {lost.log or 'nothing'} again"
+                why = (f"run_migrations returned with a transaction still open (opened by {by}) that holds {held}. Nothing the runner executes on this path "
+                       "commits it (only a later executescript/COMMIT of a pending script would, and none is pending here), so whether the bookkeeping survives is left to the caller: "
+                       f"a caller that just closes the connection ({', '.join(relying) or 'any direct user of run_migrations'}) loses it. A new connection then finds recorded versions "
+                       f"{found} instead of {_migration_rows(db)}; {nxt}. Make the runner commit its own writes on every path to its return: `conn.commit()` after the "
+                       "statement(s), `with conn:` around them, or the write inside an explicit BEGIN…COMMIT")
+        res["checked"].append(("C28.R5", f"{inst}:durable", f"{desc}: when run_migrations returns, what it did to the schema and to schema_migrations is committed "
+                               "(no open transaction holds it for the caller to commit or lose)", okd, why))
+        db.settle()  # R1/R4 go on as before: the view of a caller that does commit
+
     if ok:
+        durable(ref, "start:fresh", "fresh database")
         after(ref, "start:fresh", "fresh database")
     for j in range(1, n + 1):
         subset = [e for e in ms.entries if not e[0].endswith(".sql")] + sql[:j]
@@ -2457,9 +2651,12 @@ def analyse_set(repo: Any, ms: MigrationSet, label: str, baseline: dict | None =
         okp, whyp = guarded(f"building prefix {j}", lambda: rn.run(db, subset))
         if okp:
             res["states"] += 1
+            db.settle()
+            db.implicit_opened = 0
             oka, whya = guarded(f"upgrade from prefix {j}", lambda: rn.run(db, ms.entries))
             res["checked"].append(("C28.R1", f"start:prefix{j}:applies", f"database at scripts 1..{j} (recorded in schema_migrations): remaining scripts are applicable", oka, whya))
             if oka:
+                durable(db, f"start:prefix{j}", f"database at scripts 1..{j}")
                 after(db, f"start:prefix{j}", f"database at scripts 1..{j}")
         # (b) legacy database: scripts 1..j applied, user_version = version of script j, no schema_migrations
         for boot in (False, True):
@@ -2482,10 +2679,13 @@ def analyse_set(repo: Any, ms: MigrationSet, label: str, baseline: dict | None =
                 okb, _w = guarded(f"bootstrapping legacy {j}", lambda: rn.run(db, subset))
                 if not okb:
                     continue
+                db.settle()
+                db.implicit_opened = 0
             res["states"] += 1
             okl, whyl = guarded(desc, lambda: rn.run(db, ms.entries))
             res["checked"].append(("C28.R1", f"{inst}:applies", f"{desc}: remaining scripts are applicable, none is re-applied", okl, whyl))
             if okl:
+                durable(db, inst, desc)
                 after(db, inst, desc)
     # ---- R4 released baseline: every state a released version left behind, upgraded with the current scripts
     if ok and baseline is not None:
@@ -2503,6 +2703,7 @@ def analyse_set(repo: Any, ms: MigrationSet, label: str, baseline: dict | None =
                 hint = _R4_WHY.format(k=k)
                 res["checked"].append(("C28.R4", f"{inst}:applies", f"{desc}: the current scripts it has not recorded are applicable", oku, whyu + (hint if whyu else "")))
                 if oku:
+                    durable(db, inst, desc)
                     after(db, inst, desc, "C28.R4", hint)
     # ---- R2 failure bookkeeping
     if ok:
@@ -2810,7 +3011,7 @@ def run(chk: Any) -> None:
 
     baseline = load_baseline()
     res = analyse_set(repo, ms, "repo", baseline)
-    anchor = {"C28.R1": (m, run_fn), "C28.R2": (m, run_fn), "C28.R3": (mu, ptv_fn), "C28.R4": (m, run_fn)}
+    anchor = {"C28.R1": (m, run_fn), "C28.R2": (m, run_fn), "C28.R3": (mu, ptv_fn), "C28.R4": (m, run_fn), "C28.R5": (m, run_fn)}
     for rule, inst, desc, ok, why in res["checked"]:
         mod, fn = anchor[rule]
         chk.ob(rule, desc, ok, m=mod, node=fn, fn=fn, instance=inst, reason=why)
@@ -2820,6 +3021,17 @@ def run(chk: Any) -> None:
     chk.floor("C28.R4", "released versions in the committed baseline (fixtures/c28/baseline/sqlite.json)", len(baseline["states"]), 4)
     chk.floor("C28.R4", "released database states (tracked, legacy user_version, legacy bootstrapped per version) upgraded with the current scripts",
               res["released_states"], len(BASELINE_FORMS) * len(baseline["states"]) if fresh_ok else 0)
+    all_ran = all(o[3] for o in res["checked"] if o[0] not in ("C28.R2", "C28.R5"))  # otherwise some start states could not be run to their end
+    chk.floor("C28.R5", "start states (R1 and released R4 states) after whose run the connection's transaction state was inspected", res["durable_states"],
+              1 + 3 * len(ms.sql) + len(BASELINE_FORMS) * len(baseline["states"]) if all_ran else 0)
+    chk.floor("C28.R5", "of these, runs in which the runner wrote outside an explicit BEGIN…COMMIT (sqlite3 opened the transaction implicitly: the legacy seeding) "
+              "and was seen to commit before it returned", res["implicit_states"], len(ms.sql) + len(baseline["states"]) if all_ran else 0)
+    odd = nondefault_connects(repo)
+    if odd:
+        raise AnchorError(f"C28.R5: a caller of run_migrations opens its connection with an explicit transaction mode ({', '.join(odd)}); the rule models the default mode only and cannot decide")
+    callers = runner_callers(repo)
+    chk.extra["runner_callers"] = [{"caller": c, "commits_itself": k} for c, k in callers]
+    chk.observe("callers of the SQLite run_migrations in the sources: " + (", ".join(f"{c} ({'commits afterwards' if k else 'closes the connection without a commit: relies on the runner (R5)'})" for c, k in callers) or "none"))
     chk.exhaustive = True
     chk.extra["start_states"] = res["states"]
     chk.extra["released_states"] = res["released_states"]
@@ -2859,8 +3071,38 @@ def run(chk: Any) -> None:
         raise AnchorError(f"C28.R4: the planted fixture ({FIXTURE_DIR}/edited_release) was not reported; the rule is blind")
     chk.floor("C28.R4", "planted fixture (statement moved between released scripts): released states reported as not converging", len(bad4), 1 if fx_fresh else 0)
 
+    # planted positive example for R5: a runner whose legacy seeding is never committed by the runner itself
+    # (it runs over the analysed tree's scripts and migration_utils: what it must report is only fixed when those are sound themselves)
+    sound = all(o[3] for o in res["checked"])
+    r5 = planted_runner(repo, ms, baseline, sound)
+    chk.floor("C28.R5", "planted runner (fixtures/c28/uncommitted_seed: legacy seed rows left in an open transaction when nothing is pending): states reported", len(r5), 1 if sound else 0)
+
     chk.observe("`run_migrations` issues BEGIN through executescript and COMMIT through cursor.execute; atomicity of script + version row relies on "
-                "SQLite transactional DDL and on sqlite3 not auto-committing in between (modelled, not verified).")
+                "SQLite transactional DDL and on sqlite3 not auto-committing in between (modelled, not verified). The legacy seed rows are written outside "
+                "BEGIN…COMMIT (implicit transaction of the sqlite3 module) and committed by `conn.commit()` in the bootstrap (R5).")
+
+
+R5_FIXTURE = FIXTURE_DIR + "/uncommitted_seed/migrate.py"
+
+
+def planted_runner(repo: Any, ms: MigrationSet, baseline: dict, strict: bool = True) -> set[str]:
+    """R5 expects no finding on the repository: the planted runner (correct except that the legacy seed rows are not committed) is
+    interpreted over the repository's scripts on every run; exactly the legacy databases with nothing pending must be reported."""
+    from ..report import VERIF
+
+    path = VERIF / R5_FIXTURE
+    if not path.is_file():
+        raise AnchorError(f"C28.R5: fixture {path} is missing")
+    view = repo.with_overlay({repo.module(MIG).rel: path.read_text()})
+    fx = analyse_set(view, ms, "fixture", baseline)
+    other = sorted({(r, i) for r, i, _d, ok, _w in fx["checked"] if not ok and r != "C28.R5"})
+    got = {i for r, i, _d, ok, _w in fx["checked"] if not ok and r == "C28.R5"}
+    n, k = len(ms.sql), len(baseline["states"])
+    want = {f"start:legacy{n}:durable"} | ({f"released:legacy{k}:durable"} if k == n else set())
+    if strict and (other or got != want):
+        raise AnchorError(f"C28.R5: on the planted runner {R5_FIXTURE} (only defect: legacy seed rows never committed by the runner) R5 reported {sorted(got)}, "
+                          f"expected exactly {sorted(want)}; other rules reported {other}, expected none; the rule or the transaction model is off")
+    return got
 
 
 # ---------------------------------------------------------------------------- twins
@@ -2929,7 +3171,35 @@ def event_insert_as_constant(cols: str = "run_id, sequence, timestamp, event_jso
     ])
 
 
+# The legacy seeding of `_bootstrap_schema_migrations` as it is (loop + commit) and as one `executemany` (seed S137's form drops the commit with the loop).
+_SEED_LOOP = (
+    "        for v in range(1, legacy_version + 1):\n            cur.execute(\n"
+    "                \"INSERT OR IGNORE INTO schema_migrations (package, version) VALUES (?, ?)\",\n"
+    "                (\"server\", v),\n            )\n        conn.commit()\n"
+)
+_SEED_MANY = (
+    "        cur.executemany(\n            \"INSERT OR IGNORE INTO schema_migrations (package, version) VALUES (?, ?)\",\n"
+    "            [(\"server\", v) for v in range(1, legacy_version + 1)],\n        )\n"
+)
+_SEED_LOOP_ONLY = _SEED_LOOP.replace("        conn.commit()\n", "")
+_RUN_END = "                applied.add(target_version)\n"
+
 TWINS = [
+    # ---- R5 breaking: bookkeeping rows left in an open transaction when run_migrations returns
+    Twin("legacy seed rows written by one executemany, commit gone with the loop (seed S137)", _PM, _SEED_LOOP, _SEED_MANY, "C28.R5"),
+    Twin("legacy seed loop kept, commit dropped (left to the implicit COMMIT of the next executescript)", _PM, _SEED_LOOP, _SEED_LOOP_ONLY, "C28.R5"),
+    Twin("commit issued before the seeding instead of after it", _PM, _SEED_LOOP, "        conn.commit()\n" + _SEED_LOOP_ONLY, "C28.R5"),
+    Twin("commit guarded by a condition that is false whenever something was seeded", _PM, _SEED_LOOP,
+         _SEED_LOOP_ONLY + "        if legacy_version < 1:\n            conn.commit()\n", "C28.R5"),
+    Twin("COMMIT after the version row dropped: each script is committed by the next executescript, the last one by nobody", _PM,
+         '                cur.execute("COMMIT")\n', "", "C28.R5"),
+    # ---- R5 benign: the commit is written differently / elsewhere, still made by the runner on every path
+    Twin("benign: legacy seed rows by one executemany, commit kept", _PM, _SEED_LOOP, _SEED_MANY + "        conn.commit()\n", None),
+    Twin("benign: seeding inside `with conn:` (commits on leaving the block)", _PM, _SEED_LOOP,
+         "        with conn:\n" + "".join("    " + ln + "\n" for ln in _SEED_LOOP_ONLY.splitlines()), None),
+    Twin("benign: seed rows committed with a COMMIT statement", _PM, _SEED_LOOP, _SEED_LOOP_ONLY + '        cur.execute("COMMIT")\n', None),
+    Twin("benign: one commit at the end of run_migrations instead of in the bootstrap", _PM,
+         *multi(_PM, [(_SEED_LOOP, _SEED_LOOP_ONLY), (_RUN_END, _RUN_END + "\n    conn.commit()\n")]), None),
     # ---- R3: statement text in a module-level string constant
     Twin("benign: event INSERT text in a module-level constant, payload in a local", _PW, *event_insert_as_constant(), None),
     Twin("module-level INSERT constant names a column no script creates", _PW, *event_insert_as_constant(cols="run_id, sequence, timestamp, payload_json"), "C28.R3"),
